@@ -103,6 +103,29 @@ add("F8", "C12", "fixed", "mutually recursive fragments (A -> B -> A, 3-cycles) 
 
 add("F11", "C20", "fixed", "introspect-schema created (truncated) the --output file before sending the request: every failure emptied an existing schema file",
     commit="7ff877f", engine="C")
+
+# ---- open findings with compile-level or wire-level witnesses
+add("K3", "C16", "open", "ID under a list type ([ID!]!, [ID], [[ID!]]) gets the scalar ID helper in deserialize_with: the module does not type-check (E0308)",
+    hazard="id-under-list", symptoms=[r"rustc E0308"], also=["C02"],
+    document="query Q { me { tags } }\n",
+    vectors={"C16": [resp("w1", "Q", {"me": {"tags": ["a", 1]}}, {"me": {"tags": ["a", "1"]}})]})
+add("K4", "C10", "open", "an enum value that is, or normalises to, `Other` collides with the catch-all variant (E0428)",
+    hazard="enum-value-other", symptoms=[r"rustc E0428", r"rustc E0308", r"rustc E0004", r"rustc E\d+"], also=["C02"],
+    schema="enum Color { RED OTHER }\ntype Query { c: Color }\n", document="query Q { c }\n", options={"normalization": "rust"},
+    vectors={"C10": [{"id": "e0", "kind": "enum", "target": "@enum", "input": "OTHER", "expect": {"known": True}, "s": "OTHER"}]})
+add("K5", "C02", "open", "two selection paths whose CamelCase concatenation coincides (`me { best {..} }` next to alias `meBest`) define the same struct twice (E0428)",
+    hazard="path-name-collision", symptoms=[r"rustc E0428"],
+    document="query Q { me { best { id } } meBest: me { id } }\n")
+add("K6", "C02", "open", "variable default values of enum / list / input-object type are emitted as ill-typed constructors",
+    hazard="non-scalar-default", symptoms=[r"rustc E\d+", r"generation-"],
+    document="query Q($c: [Color!] = [RED], $d: Color = GREEN) { x }\n")
+add("K7", "C04", "open", "an operation without variables gets the unit struct `Variables`, which serialises to null instead of an empty object (benign on the wire)",
+    hazard="zero-variables", symptoms=[r"witness: got null"],
+    document="query Q { x }\n",
+    vectors={"C04": [{"id": "w1", "kind": "vars", "target": "Q", "input": None, "expect": {"variables": {}}}]})
+add("K9", "C02", "open", "an operation whose name is its own snake_case (`query me`) makes the unit struct and the module collide (E0428) in CLI and derive form",
+    hazard="snake-case-operation-name", symptoms=[r"rustc E0428"],
+    document="query me { x }\n")
 out = os.path.join(os.path.dirname(os.path.dirname(os.path.abspath(__file__))), "known_findings.json")
 with open(out, "w") as f:
     json.dump({"comment": "written by tools/mk_known.py at authoring time; never written by a check", "findings": F}, f, indent=1)
